@@ -12,7 +12,7 @@ import numpy as np
 from pv.ref import c20_ellipse as ref
 
 FIT_CLASSES = ['sersic', 'gauss', 'geo_step', 'linear', 'fix_center', 'fix_pa', 'fix_eps', 'fix_two',
-               'area_mean', 'area_median', 'pa_edge', 'eps_edge', 'offcentre']
+               'area_mean', 'area_median', 'nearest', 'pa_edge', 'eps_edge', 'offcentre', 'truth_start']
 
 
 def _size(rng, tier):
@@ -22,13 +22,13 @@ def _size(rng, tier):
     return ny, nx
 
 
-def draw(rng, cls, tier):
-    """Draw truth + initial geometry + fit_image keywords for generator class `cls`."""
+def draw_truth(rng, cls, tier, small=False):
+    """Galaxy truth: frame, centre, eps, pa, radial law."""
     ny, nx = _size(rng, tier)
-    m = min(nx, ny)
-    if cls in ('area_mean', 'area_median'):
+    if small or cls in ('area_mean', 'area_median'):
         # the area integrators scan pixels in pure Python: keep the frame small
-        ny = nx = m = int(rng.integers(71, 86))
+        ny = nx = int(rng.integers(71, 86))
+    m = min(nx, ny)
     # centre: non-integer, well inside the frame
     span = 0.12 if cls != 'offcentre' else 0.22
     x0 = float(nx / 2 + rng.uniform(-span, span) * nx)
@@ -36,10 +36,11 @@ def draw(rng, cls, tier):
     eps = float(rng.uniform(0.05, 0.8))
     pa = float(rng.uniform(0.0, math.pi))
     if cls == 'pa_edge':
-        # position angles at / next to the ends of the [0, pi) range and at the axes
-        base = [0.0, math.pi, math.pi / 2, math.pi / 4][int(rng.integers(0, 4))]
-        pa = float((base + rng.choice([0.0, 1.0, -1.0, 3.0, -3.0]) * math.radians(rng.uniform(0.05, 1.5)))
-                   % math.pi)
+        # position angles at / next to the ends of the [0, pi) range, at the axes and diagonals
+        base = [0.0, 0.0, math.pi / 2, math.pi / 4, 3 * math.pi / 4][int(rng.integers(0, 5))]
+        off = [0.0, 1e-6, 1e-4, 2e-3, 0.02][int(rng.integers(0, 5))] * float(rng.choice([-1.0, 1.0]))
+        pa = float((base + off) % math.pi)
+        eps = float(rng.uniform(0.15, 0.8))
     if cls == 'eps_edge':
         eps = float(rng.choice([rng.uniform(0.05, 0.09), rng.uniform(0.72, 0.8)]))
     kind = 'gauss' if cls == 'gauss' else ('sersic' if cls == 'sersic' else
@@ -52,32 +53,55 @@ def draw(rng, cls, tier):
         n = None
         scale = float(rng.uniform(0.11, 0.20) * m)
     background = float(rng.choice([0.0, 0.0, amp * rng.uniform(0.01, 0.5)]))
+    return dict(shape=[ny, nx], x0=x0, y0=y0, eps=eps, pa=pa, kind=kind, amp=amp, scale=scale, n=n,
+                background=background)
 
-    # initial geometry inside the basin of convergence
-    sma0 = float(rng.uniform(5.0, 15.0))
-    # (centre offsets up to 1.5 px, but not more than ~a third of the start ellipse's semi-minor axis)
-    cmax = min(1.5, 0.35 * sma0 * (1.0 - eps))
-    gx0 = x0 + float(rng.uniform(-cmax, cmax))
-    gy0 = y0 + float(rng.uniform(-cmax, cmax))
-    geps = float(np.clip(eps + rng.uniform(-0.1, 0.1), 0.05, 0.85))
-    gpa = float((pa + math.radians(rng.uniform(-20.0, 20.0))) % math.pi)
+
+def draw_init(rng, spec, sma0=None):
+    """Initial geometry inside the basin of convergence: centre +-1.5 px (but not more than about a
+    third of the start ellipse's semi-minor axis), eps +-0.1, PA +-20 deg, sma0 5-15."""
+    if sma0 is None:
+        sma0 = float(rng.uniform(5.0, 15.0))
+    cmax = min(1.5, 0.35 * sma0 * (1.0 - spec['eps']))
+    gx0 = spec['x0'] + float(rng.uniform(-cmax, cmax))
+    gy0 = spec['y0'] + float(rng.uniform(-cmax, cmax))
+    geps = float(np.clip(spec['eps'] + rng.uniform(-0.1, 0.1), 0.05, 0.85))
+    gpa = float((spec['pa'] + math.radians(rng.uniform(-20.0, 20.0))) % math.pi)
+    return dict(x0=gx0, y0=gy0, sma=sma0, eps=geps, pa=gpa)
+
+
+def draw(rng, cls, tier):
+    """Draw truth + initial geometry + fit_image keywords for generator class `cls`."""
+    spec = draw_truth(rng, cls, tier)
+    m = min(spec['shape'])
+    init = draw_init(rng, spec)
+    sma0 = init['sma']
+    if cls == 'truth_start':
+        # start exactly at the true geometry (certainly inside the basin of convergence)
+        init.update(x0=spec['x0'], y0=spec['y0'], eps=spec['eps'], pa=spec['pa'])
 
     kw = {}
     linear = False
     step = 0.1
     if cls in ('geo_step', 'eps_edge', 'pa_edge', 'offcentre') or rng.random() < 0.25:
         step = float(rng.uniform(0.1, 0.3))
-    if cls == 'linear' or (cls in ('fix_center', 'fix_two', 'offcentre') and rng.random() < 0.3):
+    if cls == 'linear' or (cls in ('fix_center', 'fix_two', 'offcentre', 'nearest') and rng.random() < 0.3):
         linear = True
         step = float(rng.uniform(1.0, 3.0))
     if cls in ('area_mean', 'area_median'):
         kw['integrmode'] = 'mean' if cls == 'area_mean' else 'median'
         if rng.random() < 0.5:
             linear, step = False, float(rng.uniform(0.1, 0.2))
-    elif rng.random() < 0.08:
+    elif cls == 'nearest':
         kw['integrmode'] = 'nearest_neighbor'
+    elif rng.random() < 0.3:
+        kw['integrmode'] = 'bilinear'          # explicit default
     kw['step'] = step
-    if linear or rng.random() < 0.3:
+    # growth mode given in the call, or (linear only) through the geometry object
+    linear_via = 'call'
+    if linear and rng.random() < 0.3:
+        linear_via = 'geometry'
+    elif linear or rng.random() < 0.3:
         kw['linear'] = linear
     # radial range
     maxfrac = float(rng.uniform(0.30, 0.45))
@@ -87,8 +111,10 @@ def draw(rng, cls, tier):
         maxfrac = float(rng.uniform(0.25, 0.33))
     maxsma = float(maxfrac * m)
     r = rng.random()
-    if r < 0.5:
+    if r < 0.45:
         minsma = 0.0
+    elif r < 0.55:
+        minsma = float(rng.uniform(0.05, 0.5))      # below the smallest fitted ellipse (0.5 px), but not 0
     elif r < 0.75:
         minsma = float(rng.uniform(0.6, 3.0))
     else:
@@ -113,19 +139,17 @@ def draw(rng, cls, tier):
     fixed_at_truth = bool(rng.random() < 0.5)
     if fixed_at_truth:
         if fix['fix_center']:
-            gx0, gy0 = x0, y0
+            init['x0'], init['y0'] = spec['x0'], spec['y0']
         if fix['fix_pa']:
-            gpa = pa
+            init['pa'] = spec['pa']
         if fix['fix_eps']:
-            geps = eps
-    kw.update({k: v for k, v in fix.items() if v})
+            init['eps'] = spec['eps']
     # where the flags are given: fit_image keywords, or the EllipseGeometry constructor
-    flags_via = 'fit_image' if (not any(fix.values()) or rng.random() < 0.7) else 'geometry'
+    flags_via = 'call' if (not any(fix.values()) or rng.random() < 0.7) else 'geometry'
 
-    return dict(shape=[ny, nx], x0=x0, y0=y0, eps=eps, pa=pa, kind=kind, amp=amp, scale=scale, n=n,
-                background=background,
-                init=dict(x0=gx0, y0=gy0, sma=sma0, eps=geps, pa=gpa),
-                fit_kw=kw, fix=fix, fixed_at_truth=fixed_at_truth, flags_via=flags_via)
+    spec.update(init=init, fit_kw=kw, fix=fix, fixed_at_truth=fixed_at_truth, flags_via=flags_via,
+                linear=linear, linear_via=linear_via)
+    return spec
 
 
 def law_of(spec):
